@@ -9,12 +9,12 @@ REGISTRY = {
         'not_covered': [],
     },
     'C04': {
-        'v': ['c04_keystate', 'c04_objects'],
+        'v': ['c04_keystate', 'c04_objects', 'c04_apply'],
         'k': [],
         'level_text': 'State-machine contracts on the real key-roll code: each apply_* requires exactly its non-panicking phase and ensures the target phase and which key moves where; each emit function produces a key event only in the phase where it is enabled (so the returned sequence can be applied without reaching a panic arm). Inductive per command; liveness and cross-command interleavings beyond per-command preservation are not decided.',
-        'level_note': 'CertAuth::apply dispatch from event to apply_* is transcribed in the spec fn ev_enabled (not extracted); signer, renewals and child-certificate re-issue are opaque externals; time is an input.',
+        'level_note': 'CertAuth::apply dispatch from a key event to apply_* is verified on the extracted match (unit c04_apply, non-key arms dropped, R6) against the same ev_enabled definition that the emit side is verified against; the apply_* contracts proved in c04_keystate are repeated there as assumptions; signer, renewals and child-certificate re-issue are opaque externals; time is an input.',
         'design_ref': 'DESIGN.md section 10.4 (as built) and section 5 / C04',
-        'not_covered': ['CertAuth::apply dispatch (event -> apply_*), CaObjectsStore pre-save handlers', 'liveness: the roll always completes'],
+        'not_covered': ['CaObjectsStore pre-save handlers (how the object sets follow the stored events)', 'liveness: the roll always completes'],
     },
 }
 REGISTRY['C01'] = {
@@ -109,10 +109,10 @@ REGISTRY['C16'] = {
 }
 
 REGISTRY['C20'] = {
-    'v': ['c20_auth'],
+    'v': ['c20_auth', 'c20_chain', 'c20_unix'],
     'k': [],
     'k_thorough': ['k_admin_token'],
-    'level_text': 'Credential kernels on the real text: the admin token authenticates exactly when the bearer token is byte-equal to the configured one (wrong token is an error, no token is nobody) and then acts as the configured identity; decrypt rejects short payloads without slicing out of bounds, passes nonce/tag/ciphertext to AEAD-open in the right positions and returns only what it returned (rejected iff the tag fails). scrypt, base64, Unicode normalisation of user names and session-cache hits are not decided.',
+    'level_text': 'Credential kernels on the real text: the provider chain (Authorizer::authenticate_request) yields an authenticated identity only if the legacy token provider, else the primary provider, else the Unix-socket provider accepted the request, and otherwise the anonymous actor or an authentication error, never a role; the Unix-socket provider accepts exactly a peer whose user name is in the configured map and then acts as that name under the mapped role (unmapped peer: error, no peer: nobody); the admin token authenticates exactly when the bearer token is byte-equal to the configured one (wrong token is an error, no token is nobody) and then acts as the configured identity; decrypt rejects short payloads without slicing out of bounds, passes nonce/tag/ciphertext to AEAD-open in the right positions and returns only what it returned (rejected iff the tag fails). scrypt, base64, Unicode normalisation of user names and session-cache hits are not decided.',
     'level_note': 'ChaCha20-Poly1305 open, bearer-token extraction, Token equality (derived PartialEq over String) are assumed externals.',
     'design_ref': 'DESIGN.md section 10.4 (as built) and section 5 / C20',
     'not_covered': ['config_file provider login (scrypt, hex, Unicode normalisation)', 'session cache hits (tokio RwLock)', 'OpenID Connect provider'],
